@@ -16,7 +16,10 @@
 
 package vanguard
 
-import "bytes"
+import (
+	"bytes"
+	"net/http"
+)
 
 // VerifPoolHook, when non-nil, observes every buffer-pool operation. It is
 // only compiled with the "verif" build tag and is used by the external
@@ -46,3 +49,18 @@ func verifPoolWrap(pool *bufferPool, data []byte, orig *bytes.Buffer) {
 		}
 	}
 }
+
+// VerifServeHook, when non-nil, is called at the start of every ServeHTTP
+// with the client's writer and request and may substitute recording wrappers
+// for them; the returned function is called when ServeHTTP returns. It is
+// used to record the client-side boundary while the repository's own tests run.
+var VerifServeHook func(w http.ResponseWriter, r *http.Request) (http.ResponseWriter, *http.Request, func()) //nolint:gochecknoglobals
+
+func verifServe(w http.ResponseWriter, r *http.Request) (http.ResponseWriter, *http.Request, func()) {
+	if hook := VerifServeHook; hook != nil {
+		return hook(w, r)
+	}
+	return w, r, verifNop
+}
+
+func verifNop() {}
